@@ -103,6 +103,8 @@ def items(tier, seed):
             its.append({"part": "b", "kind": kind, "q0": q0, "threads": 2, "tier": tier})
         if tier != "quick":
             its.append({"part": "b", "kind": kind, "q0": 0, "threads": 3, "tier": tier})
+    for kind in NESTED_KINDS:
+        its.append({"part": "c", "kind": kind, "tier": tier})
     return its
 
 
@@ -397,14 +399,113 @@ def run_b(item, rec):
     rec.validated += 1
 
 
+# ---------------------------------------------------------------------------
+# (c) re-entrant use on one thread: while the optimizer object answers a query (a cache miss), the sub-optimizer it
+# runs asks THE SAME object about another contraction (the library does this itself: partition builders contract
+# their parts with 'auto-hq').  The outer answer must still belong to the outer query.
+
+NESTED = {"opt": None, "inner": None, "depth": 0, "inner_problem": None, "inner_mode": "search"}
+
+
+def _nested_method(inputs, output, size_dict, **kw):
+    """a hyper method (public register_hyper_function) that consults the shared optimizer for another contraction"""
+    from cotengra.pathfinders.path_basic import optimize_greedy
+
+    if NESTED["opt"] is not None and NESTED["depth"] == 0 and NESTED["inner"] is not None:
+        NESTED["depth"] += 1
+        try:
+            q = NESTED["inner"]
+            res = NESTED["opt"].search(*q) if NESTED["inner_mode"] == "search" else NESTED["opt"](*q)
+            NESTED["inner_problem"] = judge(q, "search" if NESTED["inner_mode"] == "search" else "call", res)
+        finally:
+            NESTED["depth"] -= 1
+    from cotengra.core import ContractionTree
+
+    return ContractionTree.from_path(inputs, output, size_dict, ssa_path=optimize_greedy(inputs, output, size_dict, use_ssa=True))
+
+
+def make_nested_instance(kind):
+    import cotengra as ctg
+    from cotengra.hyperoptimizers.hyper import ReusableHyperOptimizer, list_hyper_functions
+    from cotengra.presets import AutoHQOptimizer, AutoOptimizer
+
+    if "verif-nested" not in list_hyper_functions():
+        ctg.hyperoptimizers.hyper.register_hyper_function("verif-nested", _nested_method, {}, )
+    kw = dict(methods=("verif-nested",), max_repeats=1, optlib="random", parallel=False)
+    if kind == "reusable-hyper":
+        return ReusableHyperOptimizer(progbar=False, **kw)
+    if kind == "auto-cache":
+        return AutoOptimizer(optimal_cutoff=0, cache=True, **kw)
+    if kind == "autohq-cache":
+        return AutoHQOptimizer(optimal_cutoff=0, cache=True, **kw)
+    raise ValueError(kind)
+
+
+NESTED_KINDS = ["reusable-hyper", "auto-cache", "autohq-cache"]
+
+
+def nested_scenario(kind, outer_i, inner_i, warm_inner, outer_mode, inner_mode):
+    opt = make_nested_instance(kind)
+    NESTED.update(opt=None, inner=None, depth=0, inner_problem=None, inner_mode=inner_mode)
+    if warm_inner:
+        opt.search(*POOL[inner_i])  # the nested query will be a cache hit
+    NESTED.update(opt=opt, inner=POOL[inner_i])
+    try:
+        q = POOL[outer_i]
+        res = opt.search(*q) if outer_mode == "search" else opt(*q)
+        prob = judge(q, outer_mode if outer_mode == "search" else "call", res)
+        if prob is None and NESTED["inner_problem"]:
+            prob = "nested query: " + NESTED["inner_problem"]
+        if prob is None:
+            # and afterwards both are answered from the cache with their own trees
+            for qq in (POOL[outer_i], POOL[inner_i]):
+                prob = prob or judge(qq, "search", opt.search(*qq))
+    finally:
+        NESTED.update(opt=None, inner=None)
+    return prob
+
+
+def run_c(item, rec):
+    kind = item["kind"]
+
+    def harness(ctx):
+        outer_i = symx.choose("outer", len(POOL))
+        inner_i = symx.choose("inner", len(POOL))
+        warm = bool(symx.choose("inner_already_cached", 2))
+        om = ["search", "call"][symx.choose("outer_mode", 2)]
+        im = ["search", "call"][symx.choose("inner_mode", 2)]
+        case = dict(part="c", kind=kind, outer=outer_i, inner=inner_i, warm_inner=warm, outer_mode=om, inner_mode=im)
+        try:
+            prob = nested_scenario(kind, outer_i, inner_i, warm, om, im)
+        except (symx.PathAbort, symx.Unsupported, symx.Budget):
+            raise
+        except Exception as e:  # noqa
+            prob = f"raised {e!r}"
+        rec.refute(ctx, prob is not None, "answer belongs to the query (nested query on the same thread)",
+                   lambda m: dict(case=case, problem=prob, signature=["C16c", kind, outer_i, inner_i, warm, om, im]))
+
+    out = symx.explore(harness, max_paths=2000, deadline_s=(60 if item["tier"] == "quick" else 300))
+    rec.add_explore(out)
+    rec.sample(dict(part="c", kind=kind, scenarios=out.paths, what="outer query (miss) whose sub-optimizer queries the same object"))
+    rec.validated += 1
+
+
 def run_item(item, rec):
     warnings.simplefilter("ignore")
-    {"a": run_a, "a-preset": run_a_preset, "b": run_b}[item["part"]](item, rec)
+    {"a": run_a, "a-preset": run_a_preset, "b": run_b, "c": run_c}[item["part"]](item, rec)
 
 
 def replay(v):
     warnings.simplefilter("ignore")
     case = v["case"]
+    if case["part"] == "c":
+        try:
+            prob = nested_scenario(case["kind"], case["outer"], case["inner"], case["warm_inner"], case["outer_mode"], case["inner_mode"])
+        except Exception as e:  # noqa
+            prob = f"raised {e!r}"
+        if prob:
+            return True, f"{case['kind']}: query {case['outer']} ({case['outer_mode']}) whose sub-optimizer asks the same object about query {case['inner']} ({'cached' if case['warm_inner'] else 'not cached'}): {prob}"
+        return False, "nested queries answered correctly"
     if case["part"] == "a":
         opt = make_instance(case["kind"])
         for qi, mode in case["seq"]:
